@@ -62,9 +62,13 @@ CLAIMED.update({
             "soundness proved for solids, alpha-less bits images, and the cover-flag promotion (every sample inside the image, via C04); "
             "SATURATE row proved over exact rationals; the arguments of every fast-path lookup (captured with --wrap) must equal the "
             "model; presentations paired under transforms, filters, repeats and wide destinations; independent sample-geometry flag oracle.",
-            TB + "Partial: gradient opacity rule only as a flag rule (renderers not connected); 'sample inside => alpha 255' and the "
-            "bilinear blend are not composed into one theorem; 'ID_TRANSFORM bit => no transform' is a hypothesis (checked by the "
-            "harness); alpha maps, clips, accessors, separable convolution excluded from the paired streams.",
+            TB + "End to end (Props/C09Sound, C09Gradient, C09Headline, C09Formats): a promoted source/mask fetches alpha 255 at every "
+            "pixel of the request (C04 cover theorems + C10 alpha-less fetch + C08 bilinear lanes; float lerp over Rat), flagged "
+            "linear/conical gradients have alpha exactly 1 everywhere (via C13's composition theorem), and the looked-up operator "
+            "computes the requested operator for every Porter-Duff/ADD operator (presentation invariance for source, mask, "
+            "destination). Partial: a BILINEAR filter promoted through NEAREST_OPAQUE alone (integer translations); radial 'a < 0 => "
+            "every pixel has a root'; float fetch model; headline theorems for the 8-bit pipeline; alpha maps, clips, accessors, "
+            "separable convolution excluded from the paired streams.",
             TECH, "DESIGN.md 6/C09"),
     "C11": ("proof",
             "Model of pixman-matrix.c with C integer widths; 128/48-bit schoolbook division proved exact to nearest, affine and "
@@ -86,8 +90,11 @@ CLAIMED.update({
             "first-principles point oracle on the 32-bit and 16-bit entries and the box loop; byte-level canary-frame oracle on "
             "composite/fill/glyph/trapezoid drawing for 11 destination formats incl. a1/a4/24bpp under 2 implementation chains.",
             TB + "Exactness is claimed for alpha maps without a clip region (with one: reported region is a subset of the property's "
-            "intersection). Partial: 'every composite routine honours its box' and the sub-byte/padding frame are differential "
-            "(canary oracle), not proved; the 16-bit wrapper is correspondence/oracle only (known finding: coordinates > 32767). The "
+            "intersection). Frame theorems at model level (Props/C03Frame): the general path's write-back (C10 scanline stores over "
+            "the boxes of R), incl. the alpha-map store, fill_boxes/fill_rectangles on every route (C19), glyph drawing (C17Draw) and "
+            "mask-route trapezoids change no bit outside the pixels of R (sub-byte neighbours, row padding, other rows) for every "
+            "1/4/8/16/24/32-bpp format. Partial: the fast-path/SIMD composite bodies are outside every model (canary oracle under "
+            "each chain only); direct trapezoid rasterisation is framed on C12's pixel array (row/column containment: C04 S8); the 16-bit wrapper is correspondence/oracle only (known finding: coordinates > 32767). The "
             "theorems' hypothesis RangeOK = no int overflow AND every consulted clip canonical; requests with a hand-built non-canonical "
             "clip (unreachable through the region API) are compared with the model only, not with the point oracle.",
             TECH, "DESIGN.md 6/C03"),
@@ -119,8 +126,11 @@ CLAIMED.update({
             "fast-path/iterator table entries of the live chain is hit by synthesised requests (observed through trampolines) swept "
             "over widths 1..35, alignments, strides, and compared byte for byte across 7 PIXMAN_DISABLE processes; white-box kernel "
             "and lookup-history correspondence.",
-            TB + "Partial: per-entry soundness (EntrySound) and the SIMD loop structure (head/body/tail, alignment) are validated by the "
-            "differential sweep, not proved. Known finding L2: destination dither is honoured only by the general path.",
+            TB + "Also proved: the vector early-out tests (is_opaque / is_zero / is_transparent) and 'shortcut = generic blend' for the "
+            "over / over_8888_8_8888 steps, the SSE2 and SSSE3 bilinear pixels (horizontal, vertical, pack) = the packed C "
+            "bilinear_interpolation, mmx packed-565 variants; 35 real static-inline kernels in the white-box correspondence. Partial: "
+            "per-entry soundness (EntrySound) and the SIMD loop structure (head/body/tail, alignment) are validated by the differential "
+            "sweep, not proved. Known finding L2: destination dither is honoured only by the general path.",
             "Lean 4 theorems (cache transparency, chain independence, lane kernels) + per-table-entry differential sweep across 7 "
             "PIXMAN_DISABLE processes + white-box kernel and lookup-history correspondence with the compiled Lean driver", "DESIGN.md 6/C02"),
     "C08": ("proof",
@@ -203,8 +213,11 @@ CLAIMED.update({
             "[0,size), pad bounds, allocation sizes exact or NULL, no assert reachable; white-box correspondence on ~3e5 "
             "boundary-constructed requests with an exact __int128 oracle; ~6e5 drawing requests per run on exact-size buffers flush "
             "against PROT_NONE guard pages over 5 implementation chains (ASan sweep in the thorough tier).",
-            TB + "Partial: memory safety of the compiled fetchers / SIMD paths is a runtime fact observed on the executed sweep only; "
-            "projective sources corner-only; edge clamps (S8) not proved. Known findings: sampling a source/mask with width or height 0 "
+            TB + "Also proved: the bilinear NORMAL-repeat split reads only inside the row (bounds regenerated from pixman-inlines.h), "
+            "the trapezoid rasterisers stay inside columns [0,width) of rows [0,height) for arbitrary edge state (clamps regenerated "
+            "from pixman-edge*.c / pixman-trap.c and bridged by rfl), projective interiors within the corner hull plus one unit of "
+            "rounding slack. Partial: memory safety of the compiled fetchers / SIMD paths is a runtime fact observed on the executed "
+            "sweep only; the a1 mask bits (endian-dependent) are abstracted to pixels. Known findings: sampling a source/mask with width or height 0 "
             "(SIGFPE / out-of-bounds / hang; no small safe repair: tolerance-test relies on 0-sized REPEAT_NONE sources acting as "
             "transparent) and edges whose endpoints are 2^31 or more apart (SIGFPE).",
             TECH + "; guard-page / AddressSanitizer drawing sweep as runtime oracle", "DESIGN.md 6/C04"),
